@@ -1,5 +1,6 @@
 //! Common helpers for the correspondence harness binaries.
 #![allow(dead_code)]
+pub mod streamlib;
 use std::io::{self, BufRead, Write};
 use std::panic;
 
